@@ -24,6 +24,9 @@ type VerifHooks struct {
 	TimeUnit time.Duration
 	// Yield is called at named check-then-act windows; it may block.
 	Yield func(point, replicaName string)
+	// InjectedProbes keeps the real probers from starting; probe outcomes are
+	// then delivered through ProjectRunner.VerifProbeResult only.
+	InjectedProbes bool
 }
 
 var verifHooks atomic.Pointer[VerifHooks]
@@ -53,6 +56,11 @@ func verifTimeUnit() time.Duration {
 		return 0
 	}
 	return h.TimeUnit
+}
+
+func verifInjectedProbes() bool {
+	h := verifHooks.Load()
+	return h != nil && h.InjectedProbes
 }
 
 func verifYield(point, replicaName string) {
